@@ -215,14 +215,14 @@ where
     let mut yielded: Vec<Option<usize>> = Vec::new();
     let mut work: Vec<Vec<(usize, J)>> = (0..nthreads).map(|_| Vec::new()).collect();
     for c in opat.chars() {
-        let back = c == 'B';
-        let v = if back { it.next_back() } else { it.next() };
+        let (back, d) = pat_step(c);
+        let v = match (back, d) { (false, 0) => it.next(), (true, 0) => it.next_back(), (false, d) => it.nth(d), (true, d) => it.nth_back(d) };
         match v {
             None => yielded.push(None),
             Some(inner) => {
                 // the vector a client believes it got: front / back counters
-                let k = if back { al.wrapping_sub(1).wrapping_sub(b) } else { f };
-                if back { b += 1 } else { f += 1 }
+                let k = if back { al.wrapping_sub(1).wrapping_sub(b).wrapping_sub(d) } else { f + d };
+                if back { b += d + 1 } else { f += d + 1 }
                 yielded.push(Some(k));
                 work[rng.below(nthreads)].push((k, inner));
             }
@@ -242,12 +242,12 @@ where
                     let pat: Vec<char> = ipat.chars().collect();
                     let mut i = 0;
                     loop {
-                        let back = pat[i % pat.len()] == 'B';
+                        let (back, d) = pat_step(pat[i % pat.len()]);
                         i += 1;
-                        let e = if back { inner.next_back() } else { inner.next() };
+                        let e = match (back, d) { (false, 0) => inner.next(), (true, 0) => inner.next_back(), (false, d) => inner.nth(d), (true, d) => inner.nth_back(d) };
                         let Some(e) = e else { break };
-                        let t = if back { vl.wrapping_sub(1).wrapping_sub(b) } else { f };
-                        if back { b += 1 } else { f += 1 }
+                        let t = if back { vl.wrapping_sub(1).wrapping_sub(b).wrapping_sub(d) } else { f + d };
+                        if back { b += d + 1 } else { f += d + 1 }
                         jitter(*e);
                         *e = g(k, t, *e);
                         touched.push((k, t, e as *mut u64 as usize));
@@ -307,7 +307,7 @@ fn thr_case(out: &mut Out, order: Order, nr: usize, nc: usize, rows: bool, opat:
     let mut seen = BTreeSet::new();
     for k in yielded.iter().flatten() {
         if !seen.insert(*k) { out.oracle_fail(&format!("{op}: vector {k} was yielded twice")); continue; }
-        for t in 0..vl {
+        for t in positions(vl, ipat) {
             let (r, c) = if rows { (*k, t) } else { (t, *k) };
             if r < nr && c < nc { seq[(r, c)] = g(*k, t, seq[(r, c)]); }
         }
@@ -329,9 +329,38 @@ fn thr_case(out: &mut Out, order: Order, nr: usize, nc: usize, rows: bool, opat:
     out.observe(&format!("len={len} yield=[{}] data={d}", ys.join(", ")));
 }
 
+/// one pattern character: `F` = next, `B` = next_back, `1`..`9` = nth(d), `a`..`i` = nth_back(d)
+fn pat_step(c: char) -> (bool, usize) {
+    match c { 'B' => (true, 0), '1'..='9' => (false, c as usize - 48), 'a'..='i' => (true, c as usize - 96), _ => (false, 0) }
+}
+
+/// the positions of a vector of `vl` elements that a client following `ipat` (cycled, until the
+/// first `None`) gets, by the contract of next / next_back / nth / nth_back
+fn positions(vl: usize, ipat: &str) -> Vec<usize> {
+    let pat: Vec<char> = ipat.chars().collect();
+    let (mut f, mut b, mut i) = (0usize, 0usize, 0usize);
+    let mut res = Vec::new();
+    loop {
+        let (back, d) = pat_step(pat[i % pat.len()]);
+        i += 1;
+        if d >= vl - f - b { break; }
+        res.push(if back { vl - 1 - b - d } else { f + d });
+        if back { b += d + 1 } else { f += d + 1 }
+    }
+    res
+}
+
 fn pattern(rng: &mut Rng, n: usize) -> String {
-    let kind = rng.below(5);
-    (0..n).map(|i| match kind { 0 => 'F', 1 => 'B', 2 => if i % 2 == 0 { 'F' } else { 'B' }, 3 => if i == 0 { 'B' } else { 'F' }, _ => if rng.coin() { 'F' } else { 'B' } }).collect()
+    let kind = rng.below(8);
+    (0..n).map(|i| match kind {
+        0 => 'F', 1 => 'B', 2 => if i % 2 == 0 { 'F' } else { 'B' }, 3 => if i == 0 { 'B' } else { 'F' },
+        4 => if rng.coin() { 'F' } else { 'B' },
+        // every other one (what step_by(2) does after its first item), from the front / from the back
+        5 => if i == 0 { 'F' } else { '1' },
+        6 => if i == 0 { 'B' } else { 'a' },
+        // everything mixed: single steps and jumps of 1..3 from both ends
+        _ => *rng.pick(&['F', 'B', '1', '2', '3', 'a', 'b', 'F', 'B']),
+    }).collect()
 }
 
 pub fn run_c17(out: &mut Out, rng: &mut Rng, tier: Tier) -> String {
@@ -363,7 +392,7 @@ pub fn run_c17(out: &mut Out, rng: &mut Rng, tier: Tier) -> String {
     }
     format!(
         "type level: in-process auto-trait probes (16: outer / inner iterator x rows / cols x the four (Send, Sync) classes of element types u64, Cell<u32>, a Sync-but-not-Send struct, Rc<u8>) and {} compile probes (cargo check of one client program each under /verif/probes: need_send / need_sync bounds, moving the iterator into a scoped thread, sharing it with a scoped thread, cloning it, touching the matrix while the iterator is alive), verdict and diagnostic code compared with the model and with the property's rule; \
-         run time: {cases} threaded cases: shapes 0..5 x 0..5 plus 2x9, 9x2, 16x3, 3x16, 33x64, 5x200, 120x7, both orders, rows and columns, outer call patterns of next / next_back (all-front, all-back, alternating, back-then-front, random; mostly running past exhaustion, a quarter partial), inner patterns likewise, 1..16 threads (more and fewer vectors than threads) with the vectors assigned to threads by the run's PRNG, per-element jitter, a barrier start, the outer iterator itself shared (len) with and then moved to other threads. \
+         run time: {cases} threaded cases: shapes 0..5 x 0..5 plus 2x9, 9x2, 16x3, 3x16, 33x64, 5x200, 120x7, both orders, rows and columns, outer call patterns of next / next_back / nth(d) / nth_back(d) (all-front, all-back, alternating, back-then-front, random, every-other-one from the front / from the back, mixed steps and jumps of 1..3 from both ends; mostly running past exhaustion, a quarter partial), inner patterns likewise, 1..16 threads (more and fewer vectors than threads) with the vectors assigned to threads by the run's PRNG, per-element jitter, a barrier start, the outer iterator itself shared (len) with and then moved to other threads. \
          Oracle: ownership map thread -> addresses pairwise disjoint, every reference at the address of the position it stands for, no vector yielded twice, final matrix equal to the sequential run through indexing. A case = one probe group or one threaded run",
         2 * 2 * (4 * 4 + 2)
     )
